@@ -1,12 +1,12 @@
 from ..engine import Case
 
-OPS = {'ADDLAST': 1, 'ADDFIRST': 2, 'ADDAT': 3, 'POPFIRST': 4, 'POPLAST': 5, 'REMOVEAT': 6, 'GETAT': 7, 'SETAT': 8, 'CLEAR': 9, 'TOARRAY': 10, 'SIZE': 11, 'TOSTRING': 12}
+OPS = {'ADDLAST': 1, 'ADDFIRST': 2, 'ADDAT': 3, 'POPFIRST': 4, 'POPLAST': 5, 'REMOVEAT': 6, 'GETAT': 7, 'SETAT': 8, 'CLEAR': 9, 'TOARRAY': 10, 'SIZE': 11, 'TOSTRING': 12, 'WALKLOCKED': 13}
 VEC_PAIRS = [('ADDLAST', 'POPFIRST'), ('ADDLAST', 'ADDLAST'), ('ADDLAST', 'CLEAR'), ('ADDAT', 'REMOVEAT'), ('ADDAT', 'ADDAT'), ('ADDFIRST', 'POPLAST'), ('TOARRAY', 'POPFIRST'), ('TOARRAY', 'CLEAR'),
-             ('TOARRAY', 'ADDLAST'), ('GETAT', 'SETAT'), ('GETAT', 'REMOVEAT'), ('POPFIRST', 'POPFIRST'), ('POPLAST', 'ADDLAST'), ('REMOVEAT', 'REMOVEAT'), ('SETAT', 'REMOVEAT'), ('CLEAR', 'ADDLAST')]
+             ('TOARRAY', 'ADDLAST'), ('GETAT', 'SETAT'), ('GETAT', 'REMOVEAT'), ('POPFIRST', 'POPFIRST'), ('POPLAST', 'ADDLAST'), ('REMOVEAT', 'REMOVEAT'), ('SETAT', 'REMOVEAT'), ('CLEAR', 'ADDLAST'), ('WALKLOCKED', 'ADDFIRST'), ('WALKLOCKED', 'POPFIRST'), ('WALKLOCKED', 'CLEAR')]
 LIST_PAIRS = [('ADDLAST', 'POPFIRST'), ('ADDLAST', 'ADDLAST'), ('ADDLAST', 'CLEAR'), ('ADDAT', 'REMOVEAT'), ('ADDAT', 'ADDAT'), ('ADDFIRST', 'POPLAST'), ('TOARRAY', 'POPFIRST'), ('TOARRAY', 'CLEAR'),
-              ('TOARRAY', 'ADDLAST'), ('TOSTRING', 'POPFIRST'), ('TOSTRING', 'ADDLAST'), ('TOSTRING', 'CLEAR'), ('GETAT', 'REMOVEAT'), ('POPFIRST', 'POPFIRST'), ('POPLAST', 'ADDLAST'), ('REMOVEAT', 'REMOVEAT'), ('CLEAR', 'ADDLAST')]
-FUNCS = {1: ['qvector_addat', 'qvector_addlast', 'qvector_addfirst', 'qvector_popat', 'qvector_removeat', 'qvector_getat', 'qvector_setat', 'qvector_clear', 'qvector_toarray', 'qvector_lock', 'qvector_unlock', 'Q_MUTEX_ENTER', 'Q_MUTEX_LEAVE'],
-         2: ['qlist_addat', 'qlist_addlast', 'qlist_addfirst', 'qlist_popat', 'qlist_removeat', 'qlist_getat', 'qlist_clear', 'qlist_toarray', 'qlist_tostring', 'qlist_lock', 'qlist_unlock', 'Q_MUTEX_ENTER', 'Q_MUTEX_LEAVE']}
+              ('TOARRAY', 'ADDLAST'), ('TOSTRING', 'POPFIRST'), ('TOSTRING', 'ADDLAST'), ('TOSTRING', 'CLEAR'), ('GETAT', 'REMOVEAT'), ('POPFIRST', 'POPFIRST'), ('POPLAST', 'ADDLAST'), ('REMOVEAT', 'REMOVEAT'), ('CLEAR', 'ADDLAST'), ('WALKLOCKED', 'ADDFIRST'), ('WALKLOCKED', 'POPFIRST'), ('WALKLOCKED', 'CLEAR')]
+FUNCS = {1: ['qvector_addat', 'qvector_addlast', 'qvector_addfirst', 'qvector_popat', 'qvector_removeat', 'qvector_getat', 'qvector_setat', 'qvector_clear', 'qvector_toarray', 'qvector_getnext', 'qvector_lock', 'qvector_unlock', 'Q_MUTEX_ENTER', 'Q_MUTEX_LEAVE'],
+         2: ['qlist_addat', 'qlist_addlast', 'qlist_addfirst', 'qlist_popat', 'qlist_removeat', 'qlist_getat', 'qlist_clear', 'qlist_toarray', 'qlist_tostring', 'qlist_getnext', 'qlist_lock', 'qlist_unlock', 'Q_MUTEX_ENTER', 'Q_MUTEX_LEAVE']}
 
 
 def cases(tier):
